@@ -161,6 +161,8 @@ func (fs *subDirFS) Walk(ctx context.Context, target string, fn gofs.WalkDirFunc
 				if fi.Mode()&os.ModeSymlink != 0 {
 					if strings.HasPrefix(stat.Linkname, "/") {
 						stat.Linkname = path.Join("/"+d.Stat.Path, stat.Linkname)
+						// the size of a symlink is the length of its target
+						stat.Size = int64(len(stat.Linkname))
 					}
 				} else {
 					stat.Linkname = path.Join(d.Stat.Path, stat.Linkname)
